@@ -15,27 +15,6 @@ Record refines (h : change -> list change) : Prop := {
     exists tcs', In (ModifyTable t tcs') (h (ModifyTable t tcs)) /\ existsb (tc_removes s) tcs' = true
 }.
 
-Lemma flat_map_split {A B} (h : A -> list B) : forall l pre' y post',
-  flat_map h l = pre' ++ y :: post' ->
-  exists pre x post p1 p2, l = pre ++ x :: post /\ h x = p1 ++ y :: p2 /\
-    pre' = flat_map h pre ++ p1 /\ post' = p2 ++ flat_map h post.
-Proof.
-  induction l as [|x l IH]; intros pre' y post' E; simpl in E.
-  - destruct pre'; discriminate.
-  - symmetry in E. apply app_eq_app in E. destruct E as [l0 [[E1 E2]|[E1 E2]]].
-    + (* pre' = h x ++ l0 , rest = l0 ++ y :: post' *)
-      destruct (IH l0 y post' E2) as [pre [x0 [post [p1 [p2 [H1 [H2 [H3 H4]]]]]]]].
-      exists (x :: pre), x0, post, p1, p2. split; [rewrite H1; reflexivity|]. split; [exact H2|].
-      split; [|exact H4]. simpl. rewrite <- app_assoc, <- H3. exact E1.
-    + (* h x = pre' ++ l0 , y :: post' = l0 ++ rest *)
-      destruct l0 as [|z l0]; simpl in E2.
-      * rewrite app_nil_r in E1. subst pre'.
-        destruct (IH [] y post' (eq_sym E2)) as [pre [x0 [post [p1 [p2 [H1 [H2 [H3 H4]]]]]]]].
-        exists (x :: pre), x0, post, p1, p2. split; [rewrite H1; reflexivity|]. split; [exact H2|].
-        split; [|exact H4]. simpl. rewrite <- app_assoc, <- H3, app_nil_r. reflexivity.
-      * inversion E2; subst. exists [], x, l, pre', l0. repeat split; assumption.
-Qed.
-
 Section Transfer.
   Variable h : change -> list change.
   Hypothesis Hh : refines h.
@@ -204,38 +183,27 @@ Proof.
 Qed.
 
 (** * Safety of what the dialect planners emit *)
-Theorem dialect_safe_ordered cs c S h :
-  refines h -> WF cs -> consistent c cs ->
-  (sortMap cs = SMCycle -> repoint_ordered cs) ->
-  detach_spec cs S ->
-  exists c', replay (flat_map h (partition_changes S)) c = Some c'.
+Theorem dialect_safe cs c S h :
+  refines h -> WF cs -> consistent c cs -> detach_spec cs S ->
+  exists out c', SortChanges S = Some out /\ replay (flat_map h out) c = Some c'.
 Proof.
-  intros Hh HWF Hcons Hex HS. apply split_replay_ok. apply (refine_split_ok h Hh).
-  apply (safe_ordered cs c S HWF Hcons Hex HS).
+  intros Hh HWF Hcons HS. destruct (safe_split cs c S HWF Hcons HS) as [out [H1 [_ H2]]].
+  destruct (split_replay_ok _ _ (refine_split_ok h Hh out c H2)) as [c' Hc].
+  exists out, c'. split; assumption.
 Qed.
 
 Theorem plan_dialect_safe cs c :
   WF cs -> consistent c cs ->
-  (sortMap cs = SMCycle -> repoint_ordered cs) ->
   exists l, plan cs = POk l /\
     (exists c1, replay l c = Some c1) /\
     (exists c2, replay (flat_map mysql_sources l) c = Some c2) /\
     (exists c3, replay (flat_map pg_sources l) c = Some c3).
 Proof.
-  intros HWF Hcons Hex. destruct (DetachCycles_total cs) as [S HS].
+  intros HWF Hcons. destruct (DetachCycles_total cs) as [S HS].
   pose proof (DetachCycles_spec cs S HS) as Hspec.
-  destruct (safe_ordered cs c S HWF Hcons Hex Hspec) as [H1 H2].
-  exists (partition_changes S). split; [unfold plan; rewrite HS, H1; reflexivity|].
+  destruct (safe_split cs c S HWF Hcons Hspec) as [out [H1 [_ H2]]].
+  exists out. split; [unfold plan; rewrite HS, H1; reflexivity|].
   split; [apply (split_replay_ok _ _ H2)|]. split.
-  - apply (dialect_safe_ordered cs c S mysql_sources mysql_refines HWF Hcons Hex Hspec).
-  - apply (dialect_safe_ordered cs c S pg_sources pg_refines HWF Hcons Hex Hspec).
+  - apply (split_replay_ok _ _ (refine_split_ok mysql_sources mysql_refines out c H2)).
+  - apply (split_replay_ok _ _ (refine_split_ok pg_sources pg_refines out c H2)).
 Qed.
-
-Corollary plan_dialect_safe_except cs c :
-  WF cs -> consistent c cs ->
-  (sortMap cs = SMCycle -> no_repoint_to_added cs) ->
-  exists l, plan cs = POk l /\
-    (exists c1, replay l c = Some c1) /\
-    (exists c2, replay (flat_map mysql_sources l) c = Some c2) /\
-    (exists c3, replay (flat_map pg_sources l) c = Some c3).
-Proof. intros HWF Hcons Hex. apply (plan_dialect_safe cs c HWF Hcons (except_ordered cs Hex)). Qed.
